@@ -151,6 +151,16 @@ class Occ:
         cf = self.counter_field(f)
         pl = st["place"]
         fields = mir.place_fields(pl)
+        if not fields and mir.place_has_deref(pl) and len(pl["proj"]) == 1:
+            # a store through a reference that was taken to the counter field itself (a closure capturing `&mut guard.initialized`)
+            r = mir.strip_casts(f.deep_simplify(f.local_expr(pl["local"], b, i)))
+            for _ in range(3):
+                if isinstance(r, tuple) and r and r[0] == "ref" and isinstance(r[1], tuple) and r[1][0] == "place" and len(r[1]) == 3 and r[1][2]:
+                    fields = [x for x in r[1][2] if isinstance(x, str)]
+                    break
+                if isinstance(r, tuple) and r and r[0] in ("field", "load") and isinstance(r[1], tuple):
+                    r = mir.strip_casts(r[1]) if r[0] == "field" and r[1][:1] == ("agg",) else r
+                break
         if not fields or fields[-1] != cf:
             return None
         if cf == "size" and not mir.place_has_deref(pl):
